@@ -5,7 +5,7 @@
    node's value.  [check] recomputes all three with the model:
    required fields, plan + dispatch, supplied-matrix. *)
 From Coq Require Import List String Bool.
-From Shovel Require Import Base.Outcome Model.Plan Model.Provides Model.PlanCheck Gen.GlfTables Gen.GetFields.
+From Shovel Require Import Base.Outcome Model.Plan Model.Provides Model.PlanCheck Gen.GlfTables Gen.GetFields Gen.FetchFills Gen.GetDispatch.
 Import ListNotations.
 Open Scope string_scope.
 
@@ -30,11 +30,11 @@ Definition check (c : case) : bool :=
       match all_some (map lookup sel) with
       | None => false                                   (* a selected name the row builder does not know *)
       | Some Sel =>
-          let fs := dispatch (new glf_tables glf_steps needs) in
+          let fs := dispatch_of get_dispatch (new glf_tables glf_steps needs) in
           same_names needs (needs_of m Sel)
           && fetch_subset fs fetches && fetch_subset fetches fs
           && forallb (fun nb => match lookup (fst nb) with
-                                | Some f => Bool.eqb (supplied_b provides fs m f) (snd nb)
+                                | Some f => Bool.eqb (supplied_b (provides_of fetch_fills) fs m f) (snd nb)
                                 | None => false end) supplied
           && same_names (map fst supplied) sel
       end
